@@ -149,6 +149,21 @@ def gen_cases(rng, ctx):
     cases.append(mk([e], "corpus:empty-payload-at-chunk-end", True))
     cases.append(mk([e, v], "corpus:empty-payload-at-chunk-end", True))
     cases.append(mk([lo], "corpus:v6-loopback", True))
+    # oversized records are skipped whole: the decoder resumes exactly at the next record, whatever the bytes of the
+    # oversized record are (always present: they are rare in the random streams)
+    for shape in (["oversize", "valid", "valid"], ["valid", "oversize", "valid"], ["maxsize", "oversize", "valid", "short", "valid"], ["oversize", "oversize", "valid"]):
+        stream, bounds = [], []
+        for k in shape:
+            rec, b = record(rng, k)
+            if k == "oversize":
+                rec = rec[:-8] + [0xde, 0xad, 0xbe, 0xef, 0x01, 0x02, 0x03, 0x04]      # a tail that is not a plausible length
+            bounds += [len(stream) + x for x in b]
+            stream += rec
+        meta = {"kinds": shape}
+        cases.append(mk([stream], "oversize:whole", True, meta))
+        cases.append(mk(cut(stream, list(range(1000, len(stream), 1000))), "oversize:1000-byte-chunks", True, meta))
+        for b in bounds[:: max(1, len(bounds) // 6)]:
+            cases.append(mk(cut(stream, [b - 1, b + 3]), "oversize:boundary-cuts", True, meta))
     n_streams = 400 if thorough else 60
     for si in range(n_streams):
         stream, bounds, kinds = gen_stream(rng, big_ok=(si % 15 == 0))
